@@ -220,4 +220,82 @@ theorem srcIdx_axis (sels : List Sel) (order j : List Nat) (hn : order.Nodup) (k
   simp only [Option.map_some]
   rw [hn.idxOf_getElem k hk]
 
+/-! ### Ellipsis expansion -/
+
+theorem ell_true : Item.isEllipsis Item.ellipsis = true := rfl
+
+theorem filter_ell (pre post : List Item)
+    (hpre : ∀ it ∈ pre, it.isEllipsis = false) (hpost : ∀ it ∈ post, it.isEllipsis = false) :
+    (pre ++ [Item.ellipsis] ++ post).filter Item.isEllipsis = [Item.ellipsis] := by
+  have fpre : pre.filter Item.isEllipsis = [] := by
+    rw [List.filter_eq_nil_iff]; intro a ha; simp [hpre a ha]
+  have fpost : post.filter Item.isEllipsis = [] := by
+    rw [List.filter_eq_nil_iff]; intro a ha; simp [hpost a ha]
+  rw [List.filter_append, List.filter_append, fpre, fpost]
+  simp [List.filter_cons, ell_true]
+
+theorem find_ell (pre post : List Item) (hpre : ∀ it ∈ pre, it.isEllipsis = false) :
+    List.findIdx Item.isEllipsis (pre ++ [Item.ellipsis] ++ post) = pre.length := by
+  induction pre with
+  | nil => simp [List.findIdx_cons, ell_true]
+  | cons a t ih =>
+    have ha : a.isEllipsis = false := hpre a (by simp)
+    simp only [List.cons_append, List.findIdx_cons, ha, cond_false, List.length_cons]
+    rw [ih (fun it hit => hpre it (by simp [hit]))]
+
+theorem ellipsis_one (nd : Nat) (pre post : List Item)
+    (hpre : ∀ it ∈ pre, it.isEllipsis = false) (hpost : ∀ it ∈ post, it.isEllipsis = false)
+    (hle : pre.length + post.length ≤ nd) :
+    expandItems nd (pre ++ [Item.ellipsis] ++ post)
+      = .ok (pre ++ List.replicate (nd - pre.length - post.length) Item.full ++ post) := by
+  unfold expandItems
+  simp only [filter_ell pre post hpre hpost, find_ell pre post hpre]
+  have hlen : (pre ++ [Item.ellipsis] ++ post).length - [Item.ellipsis].length = pre.length + post.length := by
+    simp
+  rw [hlen]
+  have h1 : ¬ ([Item.ellipsis].length > 1) := by simp
+  have h2 : ¬ (pre.length + post.length > nd) := by omega
+  rw [if_neg h1, if_neg h2]
+  simp only [List.length_singleton, if_true]
+  have e1 : (pre ++ [Item.ellipsis] ++ post).take pre.length = pre := by
+    rw [List.append_assoc, List.take_left']; rfl
+  have e2 : (pre ++ [Item.ellipsis] ++ post).drop (pre.length + 1) = post := by
+    have : pre.length + 1 = (pre ++ [Item.ellipsis]).length := by simp
+    rw [this, List.drop_left']; rfl
+  rw [e1, e2]
+  have e3 : nd - (pre ++ List.replicate (nd - (pre.length + post.length)) Item.full ++ post).length = 0 := by
+    simp; omega
+  rw [e3]
+  simp [Nat.sub_sub]
+
+theorem ellipsis_none (nd : Nat) (pre : List Item) (hpre : ∀ it ∈ pre, it.isEllipsis = false) :
+    (pre.length ≤ nd → expandItems nd pre = .ok (pre ++ List.replicate (nd - pre.length) Item.full)) ∧
+    (nd < pre.length → expandItems nd pre = .error .index) := by
+  have fpre : pre.filter Item.isEllipsis = [] := by
+    rw [List.filter_eq_nil_iff]; intro a ha; simp [hpre a ha]
+  constructor
+  · intro hle
+    unfold expandItems
+    simp only [fpre, List.length_nil, Nat.sub_zero]
+    rw [if_neg (by simp), if_neg (by omega)]
+    simp
+  · intro hlt
+    unfold expandItems
+    simp only [fpre, List.length_nil, Nat.sub_zero]
+    rw [if_neg (by simp), if_pos (by omega)]
+
+theorem ellipsis_two (nd : Nat) (pre mid post : List Item)
+    (hpre : ∀ it ∈ pre, it.isEllipsis = false) (hmid : ∀ it ∈ mid, it.isEllipsis = false)
+    (hpost : ∀ it ∈ post, it.isEllipsis = false) :
+    expandItems nd (pre ++ [Item.ellipsis] ++ mid ++ [Item.ellipsis] ++ post) = .error .index := by
+  have f : ∀ l : List Item, (∀ it ∈ l, it.isEllipsis = false) → l.filter Item.isEllipsis = [] := by
+    intro l hl; rw [List.filter_eq_nil_iff]; intro a ha; simp [hl a ha]
+  unfold expandItems
+  have hf : (pre ++ [Item.ellipsis] ++ mid ++ [Item.ellipsis] ++ post).filter Item.isEllipsis
+      = [Item.ellipsis, Item.ellipsis] := by
+    simp only [List.filter_append, f pre hpre, f mid hmid, f post hpost]
+    simp [List.filter_cons, ell_true]
+  simp only [hf]
+  rw [if_pos (by simp)]
+
 end QuantemModel.Nd
